@@ -1,6 +1,7 @@
 package main
 
 import (
+	"time"
 	"fmt"
 	"go/token"
 	"go/types"
@@ -91,6 +92,9 @@ func (w *World) runBlocks(fr *Frame, incoming map[*ssa.BasicBlock][]inEdge, rg *
 	for _, b := range li.order {
 		if rg != nil && !rg.in[b] {
 			continue
+		}
+		if !w.deadline.IsZero() && time.Now().After(w.deadline) {
+			unsupported("generation budget exceeded in %s (the unrolled body is too large)", fn.Name())
 		}
 		ins := incoming[b]
 		if len(ins) == 0 {
